@@ -71,6 +71,25 @@ fn message(uid: u64, frames: u32) -> Msg {
     m
 }
 
+/// Same message with a binary body grown until the encoded message is an exact multiple of `unit`
+fn pad_to_multiple(mut m: Msg, unit: usize) -> Msg {
+    let uid = msgs::uid_of(&m).unwrap_or(0);
+    let mut len = match &m.body {
+        Body::Value(AmqpValue(Value::Binary(b))) => b.len(),
+        _ => 40,
+    };
+    for _ in 0..(2 * unit + 8) {
+        let mut b = uid.to_be_bytes().to_vec();
+        b.resize(len, (uid % 251) as u8);
+        m.body = Body::Value(AmqpValue(Value::Binary(Binary::from(b))));
+        if msgs::encode(&m).len() % unit == 0 {
+            break;
+        }
+        len += 1;
+    }
+    m
+}
+
 struct Plan {
     enumerated: bool,
     target: u64,
@@ -168,12 +187,13 @@ const SIG_CREDIT_TAKEN: &str = "send-dropped-after-credit-taken";
 /// ... and of its link-level-splitting facet: dropped between the transfers of one delivery
 const SIG_PARTIAL: &str = "send-dropped-between-link-level-transfers";
 
-fn send_counters() -> (u64, u64, u64, u64) {
+fn send_counters() -> (u64, u64, u64, u64, u64) {
     (
         sim::sched_point_count("observe.sender.credit_taken"),
         sim::sched_point_count("observe.sender.first_transfer_queued"),
         sim::sched_point_count("observe.sender.delivery_queued"),
         sim::sched_point_count("observe.sender.transfer.no_room"),
+        sim::sched_point_count("observe.sender.transfer_queued"),
     )
 }
 
@@ -182,11 +202,19 @@ fn send_counters() -> (u64, u64, u64, u64) {
 /// send that is dropped *while one of its transfers waits for room in the link -> session channel*
 /// (hook H7: the channel had no free slot when that transfer was handed over, and the hand-over
 /// has not completed); a send dropped at any other point after it took credit is not covered by them.
-fn classify_send_drop(before: (u64, u64, u64, u64), after: (u64, u64, u64, u64)) -> &'static str {
+///
+/// `need` is the number of link-level transfers the payload requires (1 without a max-message-size,
+/// otherwise the payload length divided by it, rounded up): the recorded finding is about a send
+/// dropped while one of *those* waits for room. A send that is still handing over transfers after
+/// the whole payload has been queued is doing something the recorded finding does not describe.
+fn classify_send_drop(before: (u64, u64, u64, u64, u64), after: (u64, u64, u64, u64, u64), need: u64) -> &'static str {
     let waiting_for_room = after.3 > before.3 && sim::sched_point_last("observe.sender.transfer.no_room") > sim::sched_point_last("observe.sender.transfer_queued");
+    let queued = after.4 - before.4;
     if after.0 == before.0 || after.2 > before.2 {
         "" // no credit taken yet, or the delivery was queued completely
     } else if !waiting_for_room {
+        ""
+    } else if queued + 1 > need {
         ""
     } else if after.1 > before.1 {
         SIG_PARTIAL
@@ -477,7 +505,25 @@ async fn run_send(enumerated: bool) {
         Some(x) => x,
         None => return,
     };
-    let msgs_v: Vec<Msg> = (0..N_MSGS).map(|i| message(100 + i, plan.frames[i as usize])).collect();
+    // one run in four splits deliveries at link level too (max-message-size below the message size);
+    // in half of those every message is an exact multiple of it
+    let mms: Option<u64> = pick(&[None, None, None, None, None, None, Some(300u64), Some(128)]);
+    let exact = mms == Some(128);
+    let msgs_v: Vec<Msg> = (0..N_MSGS)
+        .map(|i| {
+            let m = message(100 + i, plan.frames[i as usize]);
+            if exact { pad_to_multiple(m, 128) } else { m }
+        })
+        .collect();
+    // deliveries of earlier `send_batchable` calls whose outcomes are still awaited while sends are
+    // cancelled: a dropped send must leave them alone
+    let n_pre = if choice(2) == 0 { 0 } else { 1 + choice(3) as u64 };
+    let pre: Vec<Msg> = (0..n_pre).map(|i| message(50 + i, 1)).collect();
+    let noise = choice(3) == 0;
+    if noise {
+        // the listener gets a sender of its own: its observation points are not the ones under test
+        sim::set_observe_ignore_group(Some(2));
+    }
     let last_uid = 100 + N_MSGS - 1;
     // listener: a receiver that takes deliveries until the last message (never cancelled) has arrived
     let received: Rc<RefCell<Vec<Msg>>> = Rc::new(RefCell::new(Vec::new()));
@@ -496,6 +542,32 @@ async fn run_send(enumerated: bool) {
                     }
                     None => return,
                 };
+                if noise {
+                    // the sibling link runs the other way (listener sends, client receives and accepts):
+                    // its dispositions and credit flows compete for the client's link -> session channel
+                    // without touching the sender-side observation points
+                    match sim::op("sibling link accept", acc.accept(&mut lsess)).await {
+                        Some(Ok(LinkEndpoint::Sender(mut n))) => {
+                            sim::spawn("listener-sibling", async move {
+                                for i in 0..40u64 {
+                                    if n.send(message(900 + i, 1)).await.is_err() {
+                                        break;
+                                    }
+                                    if choice(3) == 0 {
+                                        sim::sleep_ms(1).await;
+                                    }
+                                }
+                                std::future::pending::<()>().await;
+                                drop(n);
+                            });
+                        }
+                        Some(other) => {
+                            ld.put(Err(format!("sibling link accept: {:?}", other.map(|_| ()))));
+                            return;
+                        }
+                        None => return,
+                    }
+                }
                 let mut steps = manual_steps2.clone().unwrap_or_default().into_iter();
                 let mut granted_left = 0u32;
                 if manual_steps2.is_some() {
@@ -558,9 +630,7 @@ async fn run_send(enumerated: bool) {
             }),
         );
     }
-    // one run in four splits deliveries at link level too (max-message-size below the message size)
-    let mms: Option<u64> = pick(&[None, None, None, Some(300u64)]);
-    sim::append_config(&format!(" mms={:?}", mms));
+    sim::append_config(&format!(" mms={:?} exact-multiples={} outstanding-batchable={} sibling-link-traffic={}", mms, exact, n_pre, noise));
     let builder = Sender::builder().name("S").target("q").sender_settle_mode(snd_mode.clone());
     let mut s = match sim::op("attach sender", sim::in_group(1, async {
         match mms {
@@ -575,6 +645,36 @@ async fn run_send(enumerated: bool) {
         }
         None => return,
     };
+    if noise {
+        let nb = Receiver::builder().name("N").source("q2").credit_mode(CreditMode::Auto(3));
+        match sim::op("attach sibling receiver", sim::in_group(1, nb.attach(&mut csess))).await {
+            Some(Ok(mut n)) => {
+                sim::spawn("app-sibling-receiver", async move {
+                    while let Ok(d) = n.recv::<Body<Value>>().await {
+                        let _ = n.accept(&d).await;
+                        sim::probe("sibling-link-disposition");
+                    }
+                    std::future::pending::<()>().await;
+                });
+            }
+            Some(Err(e)) => {
+                sim::violation("attach-failed", format!("sibling: {:?}", e));
+                return;
+            }
+            None => return,
+        }
+    }
+    let mut pre_futs = Vec::new();
+    for (i, m) in pre.iter().enumerate() {
+        match sim::op(&format!("send_batchable (outstanding) {}", i), s.send_batchable(m.clone())).await {
+            Some(Ok(f)) => pre_futs.push((50 + i as u64, f)),
+            Some(Err(e)) => {
+                sim::violation("send-error", format!("send_batchable {} failed: {:?}", i, e));
+                return;
+            }
+            None => return,
+        }
+    }
     // which messages were handed to a send that was dropped
     let mut cancelled_uids = Vec::new();
     let sig: Rc<std::cell::Cell<&'static str>> = Rc::new(std::cell::Cell::new(""));
@@ -601,7 +701,16 @@ async fn run_send(enumerated: bool) {
                 Some(Lim::Dropped) => {
                     cancelled_uids.push(100 + j);
                     sim::fault("send-future-dropped");
-                    let c = classify_send_drop(before, send_counters());
+                    let plen = msgs::encode(&msgs_v[j as usize]).len() as u64;
+                    let need = match mms {
+                        Some(m) => ((plen + m - 1) / m).max(1),
+                        None => 1,
+                    };
+                    let after = send_counters();
+                    let c = classify_send_drop(before, after, need);
+                    if sim::tracing() {
+                        sim::trace_line(format!("send {} dropped: counters {:?} -> {:?}, need {} link-level transfers, last no_room {} last queued {}: classified `{}`", j, before, after, need, sim::sched_point_last("observe.sender.transfer.no_room"), sim::sched_point_last("observe.sender.transfer_queued"), c));
+                    }
                     if !c.is_empty() {
                         // the recorded finding's precondition has occurred: what follows from it
                         // (starved sends, a receiver that merges or refuses the next delivery) is known
@@ -661,7 +770,7 @@ async fn run_send(enumerated: bool) {
             return;
         }
         last = u;
-        match msgs_v.iter().find(|x| msgs::uid_of(x) == Some(u)) {
+        match msgs_v.iter().chain(pre.iter()).find(|x| msgs::uid_of(x) == Some(u)) {
             Some(exp) => {
                 if !compare_sig("send", &format!("message {}", u), m, exp, sig.get()) {
                     return;
@@ -680,8 +789,31 @@ async fn run_send(enumerated: bool) {
             return;
         }
     }
+    for (i, m) in pre.iter().enumerate() {
+        let u = msgs::uid_of(m).unwrap_or(0);
+        if !got.iter().any(|x| msgs::uid_of(x) == Some(u)) {
+            sim::violation_sig("lost-delivery", sig.get(), format!("outstanding batchable message {} (#{}) never arrived; cancelled sends: {:?}", u, i, cancelled_uids));
+            return;
+        }
+    }
     sim::probe("arrivals-checked");
     drop(got);
+    // the receiver accepted everything it got: the outcomes of the earlier batchable sends say so,
+    // whatever was cancelled after them
+    for (u, f) in pre_futs {
+        match sim::op(&format!("outcome of outstanding batchable {}", u), f).await {
+            Some(Ok(fe2o3_amqp::types::messaging::Outcome::Accepted(_))) => sim::probe("outstanding-outcome-intact-after-cancellations"),
+            Some(other) => {
+                sim::violation_sig(
+                    "earlier-outcome-corrupted",
+                    sig.get(),
+                    format!("the receiver accepted message {}; after {} cancelled sends its outcome resolved as {:?}", u, cancelled_uids.len(), other.map_err(|e| format!("{:?}", e))),
+                );
+                return;
+            }
+            None => return,
+        }
+    }
     let _ = tokio::time::timeout(std::time::Duration::from_secs(30), s.close()).await;
     let _ = tokio::time::timeout(std::time::Duration::from_secs(30), csess.end()).await;
     let _ = tokio::time::timeout(std::time::Duration::from_secs(30), pair.client.close()).await;
